@@ -214,6 +214,9 @@ func (w *World) runTCaller(ci int) {
 	t := ts.T
 	var outstanding []*CallRec
 	for oi := range cp.Ops {
+		if w.Closing {
+			break
+		}
 		op := &cp.Ops[oi]
 		addr := addrOf(op.Addr)
 		mk := func(form string) (*CallRec, interface{}, interface{}) {
